@@ -58,11 +58,13 @@ def make_shim(table):
     return shim
 
 
-def _ref_child(srcdir, requests, table, mutations):
+def _ref_child(srcdir, requests, table, mutations, modules=()):
     quiet_process()
     shim = make_shim(dict(table))
     sys.modules["dds"] = shim
     sys.path.insert(1, srcdir)
+    for m in modules:
+        importlib.import_module(m)
     for (modn, var, value) in mutations:
         setattr(importlib.import_module(modn), var, value)
     out = []
@@ -93,9 +95,9 @@ def _ref_child(srcdir, requests, table, mutations):
     return out, shim.TABLE
 
 
-def ref_eval(srcdir, requests, table=None, mutations=()):
+def ref_eval(srcdir, requests, table=None, mutations=(), modules=()):
     """Returns ([{"res", "log", "kept"}...], new path table {path: value})."""
-    return fork_call(_ref_child, (srcdir, requests, table or {}, list(mutations)), timeout=60)
+    return fork_call(_ref_child, (srcdir, requests, table or {}, list(mutations), list(modules)), timeout=60)
 
 
 def write_tree(srcdir, files):
